@@ -2,8 +2,10 @@ import SpecKitV.Lemmas.SchedLtf
 import SpecKitV.Lemmas.Starts
 import SpecKitV.Lemmas.SchedNewVec
 import SpecKitV.Props.C04
+import SpecKitV.Props.C04New
 import SpecKitV.Props.C04Vec
 import SpecKitV.Props.SchedGen
+import SpecKitV.Props.StartsGen
 import SpecKitV.Props.Utils
 
 #print axioms ltfStep_mono
@@ -28,6 +30,10 @@ import SpecKitV.Props.Utils
 #print axioms findJdes_sound
 #print axioms findJdes_fuel
 #print axioms findJdes_complete
+#print axioms newPlan_monotone
+#print axioms NewMono.newStep_mono
+#print axioms NewMono.inv_step
+#print axioms NewMono.newK_anti
 #print axioms vecGridPoint_mono
 #print axioms vecGrid_mono
 #print axioms vecGrid_pos
@@ -35,5 +41,7 @@ import SpecKitV.Props.Utils
 #print axioms gen_ltf_round_eq
 #print axioms gen_ltf_walk_eq_model
 #print axioms gen_new_walk_eq_model
+#print axioms gen_ltf_starts_eq_model
+#print axioms gen_ltf_starts_safe
 #print axioms gen_round_half_up_eq_model
 #print axioms gen_round_half_up_eq_floor
